@@ -12,9 +12,9 @@ class P(vlib.Prop):
             "In Coq (check_wiring): the ByArch maps must be the model's by_arch_of (key function read from the source) with no sibling dropped; every architecture's ordered list must EQUAL Model/MultiArch.resolve_arch "
             "(wiring + Model/Resolver.v); BuildPackageLists must equal the model's; the verified validator foreign_check runs on the IMPLEMENTATION's lists. "
             "stage dqcache: histories of 2-4 GetPackagesWithDependencies(allArchs) calls in one process over a pool of index objects (library API): the same grouping repeated, the pool regrouped into other architectures with "
-            "the same concatenation (finding C08-F2, both orders, also with an architecture that has no indexes), a republished index (new object, same name and source), three architectures resolved in turn; observed per call: "
+            "the same concatenation (the scenario of the former finding C08-F2, fixed by 3541d7b: both orders, also with an architecture that has no indexes - regression replays), a republished index (new object, same name and source), three architectures resolved in turn; observed per call: "
             "the answer, the set the cache holds under the call's key, the uncached disqualifyDifference with its messages (hook). In Coq (check_history): all three must equal the model (dq_cache_get, dq_objs, dq_reasons); "
-            "foreign_check / single-architecture-unaffected on the implementation's answers, tagged dq-cache-key-ignores-grouping exactly when an earlier call used the key with another grouping. "
+            "foreign_check / single-architecture-unaffected on the implementation's answers, tagged dq-cache-key-ignores-grouping exactly when an earlier call used the key with another grouping (no longer a listed finding: a VIOLATION). "
             "stage c14: corpus first (C14-F1 replay, also through a chain of install_if packages, newer build on one architecture only, a package missing three dependency levels deep over three architectures, "
             "a provider available on one side only, single architecture with and without install_if additions), then families of per-architecture universes: a generated base universe (as in C02's "
             "general stream; a quarter with install_if packages; a third with an explicit dependency chain c0 -> ... -> cN, N = 2..4, whose newest LEAF is missing on "
@@ -36,18 +36,19 @@ class P(vlib.Prop):
         "wiring theorems: the ByArch keys of the requested architectures are distinct (proved for apko's nine architectures, c14_byarch_keys_distinct; an arbitrary Architecture string is its own key as long as the key expression is String()) "
         "and every architecture's index objects are its own (repos_separate: no sibling's GetRepositoryIndexes returns an object the resolver was built from, objects of one list pairwise different)",
         "which index objects GetRepositoryIndexes returns is an input of the model (own / load); the index cache that decides it belongs to C08/C19; the world handed to the resolver is what GetWorld returns (sorted, without duplicates)",
-        "c14_dq_symmetric_complete / c14_filtered_members_multi / c14_same_world_same_versions_* speak about a resolution that starts from an EMPTY disqualification cache; c14_cache_hit_same_grouping shows that any earlier history "
-        "in which the call's key was used by the same grouping only hands out the same members; another grouping with the same concatenation does not (c14_cache_other_grouping_refuted = finding C08-F2, library API only)",
-        "inside one BuildPackageLists the per-architecture calls run concurrently and share the process-wide cache; their maps are the same grouping of the same objects or contain fresh objects, so the model computes every answer from an empty cache",
+        "c14_dq_symmetric_complete / c14_filtered_members_multi / c14_same_world_same_versions_* speak about a resolution that starts from an EMPTY disqualification cache; c14_cache_own_grouping shows that after ANY earlier history "
+        "a call is handed the members of its own grouping (one cache entry per grouping since fix 3541d7b; with the lookup by the key alone this fails: c14_cache_keyed_by_concatenation_refuted, the former finding C08-F2). Its hypotheses: the maps are Go maps "
+        "(distinct architectures) and index objects with one identity are one object",
+        "inside one BuildPackageLists the per-architecture calls run concurrently and share the process-wide cache; whatever it holds every call gets the difference of its own grouping, so the model computes every answer from an empty cache",
         "the cache key of indexes with EQUAL names follows map iteration (and, from 12 indexes on, an unstable sort); the dqcache stage uses pairwise different names inside every call",
         "messages: %q of a printable ASCII string without quote or backslash is the string between double quotes (the generators use only such names); which lacking sibling a message names follows map iteration: the observed message must be one of the model's",
         "everything C02 assumes about the resolver model (map iteration, errors as a boolean)",
     )
     level_text = ("c14_dq_complete / c14_dq_symmetric_complete (for every number and order of architectures the set a resolution starts from is exactly: some OTHER requested architecture lacks this name+version — through NewMultiArch's ByArch map, "
                   "ResolveWorld's sibling loop and disqualifyDifference on package objects), c14_byarch_keys_distinct + c14_no_sibling_dropped (finite enumeration over types.AllArchs read from the source), c14_filtered_members(_multi) "
-                  "(a member that is not an install_if package is available at that version on every requested architecture), c14_no_foreign_version_partial, c14_single_arch_unaffected, c14_cache_hit_same_grouping, "
+                  "(a member that is not an install_if package is available at that version on every requested architecture), c14_no_foreign_version_partial, c14_single_arch_unaffected, c14_cache_own_grouping (after any history a call is handed the difference of its own grouping), "
                   "c14_dq_reason_names_a_lacking_sibling, c14_same_world_same_versions_partial hold for all inputs (unbounded); REFUTED by kernel-checked witnesses replayed on the real code: c14_no_foreign_version / "
-                  "c14_filtered_members_multi without the install_if proviso (finding C14-F1), c14_cache_other_grouping (finding C08-F2), c14_same_world_same_versions (two architectures offering the same packages install "
+                  "c14_filtered_members_multi without the install_if proviso (finding C14-F1), c14_cache_keyed_by_concatenation (non-vacuity: the lookup before fix 3541d7b, the former finding C08-F2), c14_same_world_same_versions (two architectures offering the same packages install "
                   "lib-1.0-r0 and lib-1.0: equal-comparing versions, first candidate wins — availability, which is what the property states, is not violated); c14_source_shape pins the source shapes the wiring model transcribes; "
                   "the model is tied to the code by goextract (key expression, AllArchs, loop shapes, message format) and by differential comparison through the real NewMultiArch / ResolveWorld / BuildPackageLists and through call histories.")
     level_note = ("trusted: Coq kernel, goextract, Go harness/printer; modelled not verified: the Go text of NewMultiArch, ResolveWorld, disqualifyDifference, disqualifyCache.Get and of the resolver (shape-checked by goextract, compared by "
